@@ -27,7 +27,7 @@ var rec = hx.NewRecorder("C14",
 	"a case is a history of 5-30 operations (AddSchema with plain, related, indexed, branchable and permissioned types; "+
 		"PatchSchema add-field with and without setAsDefault; SetActiveSchemaVersion; PatchCollection on IsActive; CreateIndex/DropIndex; "+
 		"AddView (materialized or not) and RefreshViews; create/update/delete of documents; ACP policy, owners and relationships; "+
-		"SetReplicator/DeleteReplicator, Add/RemoveP2PCollections, Add/RemoveP2PDocuments) with restart points between operations and, "+
+		"SetReplicator/DeleteReplicator, Add/RemoveP2PCollections, Add/RemoveP2PDocuments; core mode: commits of a third node delivered and merged) with restart points between operations and, "+
 		"in the core mode, crash points at storage commits; non-trivial = at least one restart that follows an index or schema-version change "+
 		"(p2p mode: or a peer-configuration change; acp mode: or an access-control change) and at least one later successful operation that "+
 		"allocates an identifier (collection, field or index id) or, p2p/acp, changes that configuration again; distinct = distinct case JSON; "+
@@ -88,6 +88,8 @@ const (
 	opUpdate      = "update"
 	opDelete      = "delete"
 	opRestart     = "restart"
+	// core mode: a commit of another node (create, re-create of a local document, update, delete) is delivered and merged
+	opInbound = "inbound"
 	// acp
 	opAddRel = "addrel"
 	opDelRel = "delrel"
@@ -114,6 +116,8 @@ func kindsOf(mode string) []weighted {
 		{opDropIndex, 5}, {opDelete, 5}, {opPatchCol, 4}, {opAddView, 2}, {opRefreshView, 1},
 	}
 	switch mode {
+	case "core":
+		base = append(base[:3:3], append([]weighted{{opInbound, 12}}, base[3:]...)...)
 	case "acp":
 		base = append([]weighted{{opAddRel, 14}, {opDelRel, 5}}, base...)
 	case "p2p":
@@ -130,7 +134,12 @@ func drawOp(t *rapid.T, mode string) Op {
 			pool = append(pool, k.k)
 		}
 	}
-	o := Op{K: rapid.SampledFrom(pool).Draw(t, "kind")}
+	return drawOpOf(t, rapid.SampledFrom(pool).Draw(t, "kind"))
+}
+
+// drawOpOf draws the parameters of an operation of the given kind.
+func drawOpOf(t *rapid.T, kind string) Op {
+	o := Op{K: kind}
 	small := rapid.IntRange(0, 7)
 	switch o.K {
 	case opAddSchema, opPatch, opCreateIndex:
@@ -194,6 +203,12 @@ func drawOp(t *rapid.T, mode string) Op {
 		o.C = small.Draw(t, "col")
 		o.D = small.Draw(t, "doc")
 		o.X = rapid.IntRange(0, 2).Draw(t, "actor")
+	case opInbound:
+		o.C = small.Draw(t, "col")
+		o.X = rapid.IntRange(0, 5).Draw(t, "what")
+		o.V = rapid.IntRange(0, 255).Draw(t, "seed")
+		o.D = small.Draw(t, "doc")
+		o.F = small.Draw(t, "field")
 	case opAddRel, opDelRel:
 		o.C = small.Draw(t, "col")
 		o.D = small.Draw(t, "doc")
@@ -259,6 +274,30 @@ func drawCase(t *rapid.T, mode string) Case {
 		}
 		if len(c.Ops) < n || (len(due) == 0 && len(pending) > 0) {
 			push(drawOp(t, c.Mode))
+		}
+	}
+	if c.Mode == "core" && rapid.IntRange(0, 3).Draw(t, "inboundTail") == 0 {
+		// structured tail: merges from another node before and after an index change of the same collection,
+		// usually with a restart somewhere between them (the index list is part of what a node caches per collection)
+		col := rapid.IntRange(0, 7).Draw(t, "tailCol")
+		ofKind := func(k string) Op {
+			o := drawOpOf(t, k)
+			o.C, o.Tx = col, 0
+			return o
+		}
+		in1 := ofKind(opInbound)
+		in1.X = rapid.IntRange(0, 1).Draw(t, "tailCreate")
+		c.Ops = append(c.Ops, in1)
+		at := rapid.IntRange(0, 3).Draw(t, "tailRestartAt")
+		if at == 0 {
+			c.Ops = append(c.Ops, Op{K: opRestart})
+		}
+		c.Ops = append(c.Ops, ofKind(rapid.SampledFrom([]string{opCreateIndex, opCreateIndex, opDropIndex}).Draw(t, "tailIndexOp")))
+		if at == 1 || at == 2 {
+			c.Ops = append(c.Ops, Op{K: opRestart})
+		}
+		for i, n := 0, rapid.IntRange(1, 3).Draw(t, "tailMerges"); i < n; i++ {
+			c.Ops = append(c.Ops, ofKind(opInbound))
 		}
 	}
 	if c.Mode == "core" {
